@@ -6,6 +6,7 @@ INIT Init
 NEXT Next
 INVARIANT RoundTrip
 INVARIANT Variance
+INVARIANT GammaS0
 INVARIANT Entry0
 INVARIANT BootDetermined
 CHECK_DEADLOCK FALSE
